@@ -27,9 +27,14 @@ class State:
     copyable = False
 
     def __init__(self, names, ending):
-        self.dir = tempfile.mkdtemp(prefix="gverif-c14-")
+        self.dir = tempfile.mkdtemp(prefix="gverif-c14-", dir="/dev/shm" if os.path.isdir("/dev/shm") and os.access("/dev/shm", os.W_OK) else None)
         self.ending = ending
         cfgpath = os.path.join(self.dir, "cfgpath.gcode")
+        for n in names:
+            if n == "cfgpath" or n.startswith("path"):
+                # an older, longer job already sits at every output path: a new session starts from an empty file
+                with open(os.path.join(self.dir, n + ".gcode"), "wb") as old:
+                    old.write(b"; previous job\nG1 X999\n" * 60)
         self.cfgmem = None
         if "cfgmem" in names:
             # the output option given as a caller-owned in-memory stream inside a GConfig instance
